@@ -26,10 +26,19 @@ static parsec_atomic_rwlock_t L;
 
 /* guarantee hooks (no interference is injected: call-atomic / frozen environment) */
 static int32_t g_rin_before;
-void verif_env_step(int op, volatile void *loc) { (void)op; if (loc == (volatile void *)&L.rin) g_rin_before = L.rin; }
+/* `rin` and `rout` are updated by readers with atomic adds at ANY time (also while a writer holds the lock), so every
+ * modification of them by the lock code must itself be a single atomic read-modify-write: the words are compared
+ * with the value left by my last atomic operation on them at every atomic operation / fence and on return
+ * (added after a seeded change replaced wrunlock's atomic AND by `L->rin &= mask`). */
+static int32_t g_rin_expected, g_rout_expected; static int g_watch, g_nonatomic_update;
+static void watch_check(void) { if (g_watch && (L.rin != g_rin_expected || L.rout != g_rout_expected)) g_nonatomic_update = 1; }
+void verif_env_step(int op, volatile void *loc) { (void)op; watch_check(); if (loc == (volatile void *)&L.rin) g_rin_before = L.rin; }
 void verif_own_step(int op, volatile void *loc, int success)
 {
     (void)success;
+    if (loc == (volatile void *)&L.rin && (op == V_OP_FETCH || op == V_OP_CAS)) g_rin_expected = L.rin;
+    else if (loc == (volatile void *)&L.rout && (op == V_OP_FETCH || op == V_OP_CAS)) g_rout_expected = L.rout;
+    else watch_check();
     if (op == V_OP_FETCH && loc == (volatile void *)&L.rin) {
         uint32_t delta = (uint32_t)L.rin - (uint32_t)g_rin_before;
         if (delta != 0 && delta < RINC) {
@@ -40,6 +49,8 @@ void verif_own_step(int op, volatile void *loc, int success)
         }
     }
 }
+#define WATCH_ON()  do { g_rin_expected = L.rin; g_rout_expected = L.rout; g_nonatomic_update = 0; g_watch = 1; } while (0)
+#define WATCH_OFF(name) do { watch_check(); g_watch = 0; V_ASSERT(!g_nonatomic_update, name); } while (0)
 
 static int wf(uint32_t R, int W)
 {
@@ -77,7 +88,9 @@ void h_rdlock_free(void)
 {
     pre_state();
     V_ASSUME(vin.W == 0);
+    WATCH_ON();
     parsec_atomic_rwlock_rdlock(&L);          /* spin loop unwound 0 times: unwinding assertion = "does not wait" */
+    WATCH_OFF("C33.rdlock.guar.reader_counters_change_only_by_single_atomic_operations");
     V_ASSERT(wf(vin.R + 1, 0), "C33.rdlock.post.reader_inside_counted_and_wf");
     V_CANARY("rdlock_free");
 }
@@ -85,7 +98,9 @@ void h_rdunlock(void)
 {
     pre_state();
     V_ASSUME(vin.W == 0 && vin.R >= 1);
+    WATCH_ON();
     parsec_atomic_rwlock_rdunlock(&L);
+    WATCH_OFF("C33.rdunlock.guar.reader_counters_change_only_by_single_atomic_operations");
     V_ASSERT(wf(vin.R - 1, 0), "C33.rdunlock.post.reader_left_and_wf");
     V_CANARY("rdunlock");
 }
@@ -94,7 +109,9 @@ void h_wrlock_free(void)
 {
     pre_state();
     V_ASSUME(vin.W == 0 && vin.R == 0);
+    WATCH_ON();
     parsec_atomic_rwlock_wrlock(&L);
+    WATCH_OFF("C33.wrlock.guar.reader_counters_change_only_by_single_atomic_operations");
     V_ASSERT(wf(0, 1), "C33.wrlock.post.writer_inside_and_wf");
     V_ASSERT(((uint32_t)L.rin & 0xFF) == (PRES | (vin.win & PHID)), "C33.wrlock.post.presence_bits_carry_ticket_phase");
     V_CANARY("wrlock_free");
@@ -103,7 +120,9 @@ void h_wrunlock(void)
 {
     pre_state();
     V_ASSUME(vin.W == 1);
+    WATCH_ON();
     parsec_atomic_rwlock_wrunlock(&L);
+    WATCH_OFF("C33.wrunlock.guar.reader_counters_change_only_by_single_atomic_operations");
     V_ASSERT(wf(0, 0), "C33.wrunlock.post.unlocked_and_wf");
     V_CANARY("wrunlock");
 }
